@@ -83,53 +83,112 @@ def h_addr_from_pk(ctx):
     return [(None, ADDR_OF(ctx.ex.deref_val(ctx.st, ctx.args[0])))]
 
 
-def h_verify_sig(ctx):
+MSG = z3.Function('canonical_vote_bytes', z3.BitVecSort(64), z3.BitVecSort(64), z3.BitVecSort(32), z3.BoolSort(), z3.BitVecSort(256), z3.BitVecSort(96), z3.BitVecSort(256), z3.BitVecSort(256))
+SIG_VALID3 = z3.Function('ed25519_verify', z3.BitVecSort(264), z3.BitVecSort(256), z3.BitVecSort(256), z3.BoolSort())     # (public key, signature, message)
+
+
+def _ident(o, what):
+    if isinstance(o, Obj) and 'ident' in o.attrs:
+        return o.attrs['ident']
+    raise Inconclusive(f'{what} without identity: {o!r}')
+
+
+def h_encode_vote(ctx):
+    """the signed bytes as an uninterpreted function of the canonical vote the code built (type, height, round, block id or nil, timestamp, chain id)"""
     ex, st = ctx.ex, ctx.st
-    ts, pk, sig = ctx.args[0], ex.deref_val(st, ctx.args[3]), ex.deref_val(st, ctx.args[4])
-    v = SIG_VALID(pk, M.ident(sig), ts)
-    st.log.append(('verify', pk, M.ident(sig), ts))
-    return [(v, ok(())), (z3.Not(v), (lambda s2: err(Obj('QuorumError', kind='error'))))]
+    v = ex.deref_val(st, ctx.args[0])
+    a = ex.adts.lookup('tendermint::vote::CanonicalVote')
+    if not a:
+        raise Inconclusive('tendermint::vote::CanonicalVote not in the ADT table')
+    g = lambda name, ty='?': ex.deref_val(st, ex.read(st, ('field', v, (None, a['fields'].index(name), ty))))
+    vt = g('vote_type'); vt = ex.discr_value(st, vt) if isinstance(vt, Obj) else z3.ZeroExt(64 - vt.size(), vt)
+    bid = g('block_id'); ts = g('timestamp'); cid = g('chain_id')
+    if not (isinstance(bid, Obj) and isinstance(bid.discr, str)) or not (isinstance(ts, Obj) and ts.discr == 'Some'):
+        raise Inconclusive('canonical vote with a symbolic block-id / timestamp option')
+    has = bid.discr == 'Some'
+    blk = _ident(ex.deref_val(st, bid.fields[('Some', 0)]), 'block id') if has else z3.BitVecVal(0, 256)
+    m = MSG(vt, g('height', 'tendermint::block::Height'), g('round', 'tendermint::block::Round'), z3.BoolVal(has), blk, ex.deref_val(st, ts.fields[('Some', 0)]), _ident(cid, 'chain id'))
+    o = Obj('Vec<u8>', kind='opaque'); o.attrs['msg'] = m
+    return [(None, o)]
+
+
+def h_vk_verify(ctx):
+    ex, st = ctx.ex, ctx.st
+    vk, sig, msg = (ex.deref_val(st, x) for x in ctx.args[:3])
+    v = SIG_VALID3(vk.attrs['pk'], sig.attrs['ident'], msg.attrs['msg'])
+    st.log.append(('verify', vk.attrs['pk'], sig.attrs['ident'], msg.attrs['msg']))
+    return [(v, ok(())), (z3.Not(v), (lambda s2: err(Obj('astria_core::crypto::Error', kind='error'))))]
+
+
+def _plain_bytes(**attrs):
+    o = Obj('Vec<u8>'); o.attrs.update(attrs)      # a byte buffer never inspected: `as_slice` / copies keep the attributes
+    return o
+
+
+def _tagged(ty, **attrs):
+    o = Obj(ty, kind='opaque'); o.attrs.update(attrs)
+    return o
 
 
 def quorum_engine():
     import re
-    hooks = [(re.compile(r'^tendermint::validator::Info::power$'), h_power), (re.compile(r'^<tendermint::account::Id as From<tendermint::PublicKey>>::from$'), h_addr_from_pk),
-             (re.compile(r'^verify_vote_signature$'), h_verify_sig), (re.compile(r'^tendermint::Signature::as_bytes$'), lambda ctx: [(None, ctx.args[0])])]
+    R = re.compile
+    dv = lambda ctx, i=0: ctx.ex.deref_val(ctx.st, ctx.args[i])
+    hooks = [(R(r'^tendermint::validator::Info::power$'), h_power), (R(r'^<tendermint::account::Id as From<tendermint::PublicKey>>::from$'), h_addr_from_pk),
+             (R(r'^tendermint::Signature::as_bytes$'), lambda ctx: [(None, ctx.args[0])]),
+             (R(r'^(tendermint::)?PublicKey::to_bytes$'), lambda ctx: [(None, _plain_bytes(pk=dv(ctx)))]),
+             (R(r'^<([\w:]+::)?VerificationKey as TryFrom<&\[u8\]>>::try_from$'), lambda ctx: [(None, ok(_tagged('VerificationKey', pk=dv(ctx).attrs['pk'])))]),
+             (R(r'^<([\w:]+::)?Signature as TryFrom<&\[u8\]>>::try_from$'), lambda ctx: [(None, ok(_tagged('Signature', ident=M.ident(dv(ctx)))))]),
+             (R(r'CanonicalVote as From<.*CanonicalVote>>::from$'), lambda ctx: [(None, ctx.args[0])]),
+             (R(r'Message>::encode_length_delimited_to_vec$'), h_encode_vote),
+             (R(r'^([\w:]+::)?VerificationKey::verify$'), h_vk_verify),
+             (R(r'^<tendermint::chain::Id as (std::clone::)?Clone>::clone$|^<tendermint::block::Id as (std::clone::)?Clone>::clone$'), lambda ctx: [(None, dv(ctx))])]
     return loader.load(['astria-conductor'], scalar_types=SCALARS2, hooks=hooks, dep_adts=['tendermint', 'tendermint-rpc'])
 
 
 def replay_commit(nv, ns, powers, votes):
-    """native replay in the crate's own test build: real ed25519 keys and signatures; votes[i] = (kind, validator index, signed_ok)"""
+    """native replay in the crate's own test build: real ed25519 keys and signatures.
+    votes[i] = (kind expr (0 absent / 1 block / 2 nil), [address matches validator j], [signature valid over the block precommit for key j], [... over the nil precommit for key j])"""
     from vlib import replay as R
 
     def rp(model, path):
         pw = [mval(model, p) for p in powers]
-        spec = []
-        for (is_commit, has_sig, addr, sig_ok, which) in votes:
-            if not mval(model, is_commit):
-                spec.append('None'); continue
+        spec = []; counted = set()
+        for (kind, which, ok_block, ok_nil) in votes:
+            kd = mval(model, kind)
             j = [k for k in range(nv) if mval(model, which[k])]
-            spec.append(f'Some(({j[0] if j else 0}usize, {"true" if mval(model, sig_ok[j[0]] if j else z3.BoolVal(False)) else "false"}))')
+            if kd not in (1, 2) or not j:
+                spec.append('(0u8, 0usize, 0u8)'); continue
+            j = j[0]
+            vb, vn = bool(mval(model, ok_block[j])), bool(mval(model, ok_nil[j]))
+            # a real signature covers one message: prefer the one this kind of entry is meant to carry when the model leaves both open
+            signed = (1 if vb else (2 if vn else 0)) if kd == 1 else (2 if vn else (1 if vb else 0))
+            spec.append(f'({kd}u8, {j}usize, {signed}u8)')
+            if kd == 1 and signed == 1:
+                counted.add(j)
         code = open('/verif/replay_templates/c09_quorum.rs').read().replace('VERIF_POWERS', ', '.join(f'{x}u64' for x in pw)).replace('VERIF_VOTES', ', '.join(spec))
         r = R.run_crate_test('astria-conductor', 'crates/astria-conductor/src/celestia/block_verifier.rs', code, 'verif_replay_c09')
         if not r['lines']:
             return {'mode': 'native-crate-test', 'reproduced': None, 'error': r['output'][-1500:]}
         o = r['lines'][-1]
-        signed = set(int(s.split('(')[2].split('usize')[0]) for s in spec if s != 'None' and 'true' in s)
-        exact = 3 * sum(pw[j] for j in signed) > 2 * sum(pw)
-        return {'mode': 'native-crate-test', 'inputs': {'powers': pw, 'votes': spec}, 'observed': o, 'exact_quorum': exact, 'reproduced': bool(o['accepted']) and not exact}
+        exact = 3 * sum(pw[j] for j in counted) > 2 * sum(pw)
+        return {'mode': 'native-crate-test', 'inputs': {'powers': pw, 'votes (kind, validator, signed message)': spec}, 'observed': o, 'exact_quorum_for_this_block': exact, 'reproduced': bool(o['accepted']) and not exact}
     return rp
 
 
-@obligation('C09', 'C09-2 ensure_commit_has_quorum: accepted only if distinct validators holding > 2/3 of the power signed validly')
+@obligation('C09', 'C09-2 ensure_commit_has_quorum: accepted only if distinct validators holding > 2/3 of the power validly signed the precommit for THIS block (votes for nil, absent entries and signatures over anything else do not count)')
 def c09_2(run):
     ex = quorum_engine()
     f = ex.find(r'^ensure_commit_has_quorum$')
     shapes = [(1, 0), (1, 1), (2, 1), (2, 2), (3, 3)] if run.tier == 'quick' else [(1, 0), (1, 1), (1, 2), (2, 1), (2, 2), (3, 2), (3, 3), (2, 3)]
-    run.bound(validator_set='1..3 validators, arbitrary keys and powers (quick: the shapes listed; thorough: all combinations up to 3 x 3)', signatures='0..3 votes, arbitrary flags/addresses/signatures',
-              signature_check='oracle: an uninterpreted predicate of (public key, signature, timestamp)')
+    run.bound(validator_set='1..3 validators, arbitrary keys and powers (quick: the shapes listed; thorough: all combinations up to 3 x 3)', signatures='0..3 commit entries, each absent / for the block / for nil, arbitrary addresses and signatures',
+              signature_check='verify_vote_signature is executed; ed25519 verification is an uninterpreted predicate of (public key, signature, message) and the signed bytes an uninterpreted function of the canonical vote (type, height, round, block id or nil, timestamp, chain id)')
     run.bound(voting_power='each validator power < 2^59 (CometBFT caps the total at i64::MAX/8)')
     run.assume('validators of the trusted validator-set response have pairwise distinct addresses; account::Id::from(pubkey) is a function of the key')
+    a = ex.adts.lookup('tendermint::block::CommitSig')
+    if not a:
+        raise Inconclusive('tendermint::block::CommitSig not in the ADT table')
+    var = {v['name']: v for v in a['variants']}
     n_ok = 0
     for nv, ns in shapes:
         vals, pks, pws = [], [], []
@@ -143,16 +202,22 @@ def c09_2(run):
             addr, ts = z3.BitVec(f'vote_addr{i}', 160), z3.BitVec(f'vote_time{i}', 96)
             sig = Obj('tendermint::Signature'); sig.attrs['ident'] = z3.BitVec(f'signature{i}', 256)
             so = Obj('std::option::Option<tendermint::Signature>'); so.fields[('Some', 0)] = sig
-            a = ex.adts.lookup('tendermint::block::CommitSig'); v = [x for x in a['variants'] if x['name'] == 'BlockIdFlagCommit'][0]
-            cs.fields[('BlockIdFlagCommit', v['fields'].index('validator_address'))] = addr
-            cs.fields[('BlockIdFlagCommit', v['fields'].index('timestamp'))] = ts
-            cs.fields[('BlockIdFlagCommit', v['fields'].index('signature'))] = so
-            sigs.append(cs); meta.append((cs, so, addr, sig, ts, v['index']))
-        commit = B.struct(ex, 'tendermint::block::Commit', height=z3.BitVec('commit_height', 64), signatures=M.new_vec('Vec<CommitSig>', sigs))
-        st = ex.start(f, [B.cell(commit), B.cell(vset), B.cell(Obj('tendermint::chain::Id'))])
+            for vn in ('BlockIdFlagCommit', 'BlockIdFlagNil'):
+                v = var[vn]
+                cs.fields[(vn, v['fields'].index('validator_address'))] = addr
+                cs.fields[(vn, v['fields'].index('timestamp'))] = ts
+                cs.fields[(vn, v['fields'].index('signature'))] = so
+            sigs.append(cs); meta.append((addr, sig.attrs['ident'], ts))
+        chain = Obj('tendermint::chain::Id', kind='opaque'); chain.attrs['ident'] = z3.BitVec('chain_id', 256)
+        blk = Obj('tendermint::block::Id', kind='opaque'); blk.attrs['ident'] = z3.BitVec('commit_block_id', 256)
+        commit = B.struct(ex, 'tendermint::block::Commit', height=z3.BitVec('commit_height', 64), round=z3.BitVec('commit_round', 32), block_id=blk, signatures=M.new_vec('Vec<CommitSig>', sigs))
+        st = ex.start(f, [B.cell(commit), B.cell(vset), B.cell(chain)])
         st.pc += [ADDR_OF(pks[a_]) != ADDR_OF(pks[b_]) for a_ in range(nv) for b_ in range(a_ + 1, nv)]
         st.pc += [z3.ULT(x, z3.BitVecVal(1 << 59, 64)) for x in pws]      # CometBFT caps the total voting power at i64::MAX / 8
-        for i, p in enumerate(run.explore(ex, st)):
+        PRECOMMIT = z3.BitVecVal(2, 64)
+        block_msg = lambda ts: MSG(PRECOMMIT, z3.BitVec('commit_height', 64), z3.BitVec('commit_round', 32), z3.BoolVal(True), z3.BitVec('commit_block_id', 256), ts, z3.BitVec('chain_id', 256))
+        nil_msg = lambda ts: MSG(PRECOMMIT, z3.BitVec('commit_height', 64), z3.BitVec('commit_round', 32), z3.BoolVal(False), z3.BitVecVal(0, 256), ts, z3.BitVec('chain_id', 256))
+        for i, p in enumerate(run.explore(ex, st, allow_havoc=(r'^Arguments::|fmt::',))):
             lab = f'[{nv} validators, {ns} votes, path {i}]'
             if p.kind != 'return':
                 run.prove(f'no panic {lab}', p.pc, z3.BoolVal(False), detail=p.info); continue
@@ -161,26 +226,24 @@ def c09_2(run):
             n_ok += 1
             c2 = ex.read(p, p.roots['args'][0].loc)
             total = sum((z3.ZeroExt(8, x) for x in pws), z3.BitVecVal(0, 72))
-            signed_power = z3.BitVecVal(0, 72); votes_for_replay = []
-            m2 = []
-            for (cs, so, addr, sig, ts, cidx) in meta:
-                cs2, so2 = p.tr(cs) if False else None, None
-            # the path's copies of the vote objects: read through the commit argument
             sig_items = B.fld(ex, p, c2, 'signatures', 'Vec<CommitSig>').attrs['items']
             per_vote = []
             for k, csx in enumerate(sig_items):
                 csx = ex.deref_val(p, csx)
-                is_commit = ex.discr_value(p, csx) == z3.BitVecVal(meta[k][5], 64)
-                sox = csx.fields[('BlockIdFlagCommit', 2)] if ('BlockIdFlagCommit', 2) in csx.fields else meta[k][1]
+                d = ex.discr_value(p, csx)
+                is_commit = d == z3.BitVecVal(var['BlockIdFlagCommit']['index'], 64); is_nil = d == z3.BitVecVal(var['BlockIdFlagNil']['index'], 64)
+                sox = ex.deref_val(p, csx.fields[('BlockIdFlagCommit', var['BlockIdFlagCommit']['fields'].index('signature'))])
                 has_sig = ex.discr_value(p, sox) == z3.BitVecVal(1, 64)
-                per_vote.append((is_commit, has_sig, meta[k][2], meta[k][3], meta[k][4]))
+                per_vote.append((is_commit, is_nil, has_sig) + meta[k])
+            signed_power = z3.BitVecVal(0, 72)
             for j in range(nv):
-                sj = z3.Or(*[z3.And(ic, hs, ad == ADDR_OF(pks[j]), SIG_VALID(pks[j], M.ident(sg), ts)) for (ic, hs, ad, sg, ts) in per_vote]) if per_vote else z3.BoolVal(False)
+                sj = z3.Or(*[z3.And(ic, hs, ad == ADDR_OF(pks[j]), SIG_VALID3(pks[j], sg, block_msg(ts))) for (ic, inl, hs, ad, sg, ts) in per_vote]) if per_vote else z3.BoolVal(False)
                 signed_power = signed_power + z3.If(sj, z3.ZeroExt(8, pws[j]), z3.BitVecVal(0, 72))
-            rp_votes = [(ic, hs, ad, [SIG_VALID(pks[j], M.ident(sg), ts) for j in range(nv)], [ad == ADDR_OF(pks[j]) for j in range(nv)]) for (ic, hs, ad, sg, ts) in per_vote]
+            rp_votes = [(z3.If(ic, z3.BitVecVal(1, 8), z3.If(inl, z3.BitVecVal(2, 8), z3.BitVecVal(0, 8))), [ad == ADDR_OF(pks[j]) for j in range(nv)],
+                         [z3.And(hs, SIG_VALID3(pks[j], sg, block_msg(ts))) for j in range(nv)], [z3.And(hs, SIG_VALID3(pks[j], sg, nil_msg(ts))) for j in range(nv)]) for (ic, inl, hs, ad, sg, ts) in per_vote]
             run.sample({'validators': nv, 'votes': ns, 'path': i})
             run.prove(f'accepted => commit and validator set are for the same height {lab}', p.pc, z3.BitVec('commit_height', 64) == z3.BitVec('set_height', 64))
-            run.prove(f'accepted => distinct validators with valid signatures hold strictly more than 2/3 of the total power {lab}', p.pc,
+            run.prove(f'accepted => distinct validators whose signatures verify over the precommit for THIS block hold strictly more than 2/3 of the total power {lab}', p.pc,
                       z3.UGT(signed_power * 3, total * 2), replay=replay_commit(nv, ns, pws, rp_votes))
     if not n_ok:
         raise Inconclusive('vacuity: no accepting path')
